@@ -113,7 +113,10 @@ def rule_IT(FA):
                 if ty != 'usize':
                     continue
                 n_w += 1
-                if not contains(val, ('field', SELF, fld)):
+                npar = ('param', f['names'].get('2', '_2'))
+                # positive contradiction only: the new cursor is computed from the skip count WITHOUT the old cursor (`i = n`);
+                # `i = end` (exhausting the iterator) is fine
+                if not contains(val, ('field', SELF, fld)) and contains(val, npar):
                     bad = (line, fld, show(val)[:60])
             key = 'R-IT|%s|%s' % (base, f['name'])
             if bad:
@@ -135,6 +138,7 @@ def rule_IT(FA):
                 continue
             F2.dom()
             bad = None
+            unguarded_access = None
             n_acc = 0
             for bi, b in enumerate(F2.blocks):
                 if bi not in F2.reach:
@@ -149,11 +153,24 @@ def rule_IT(FA):
                         idxs.append(t['args'][1])
                     elif fn['unsafe'] and (fn.get('local') or fn.get('crate') == 'qwt'):
                         idxs.extend(t['args'][1:])
+                if t['k'] == 'call' and 'fn' in t['f'] and t['f']['fn']['name'] in ('get_word', 'get_unchecked', 'index') and len(t['args']) == 2 \
+                        and t['args'][1] not in idxs:
+                    idxs.append(t['args'][1])
                 for o in idxs:
                     if 'p' not in o:
                         continue
                     n_acc += 1
                     tm = norm(F2.operand_term(o))
+                    # an access that depends on the cursor but is not dominated by ANY order test of the cursor: the bound test
+                    # comes after the access (a panic where the iterator should answer None)
+                    for fld, _ in fw:
+                        old = ('field', SELF, fld)
+                        if contains(tm, old) and F2.locals[1].startswith('&mut'):
+                            tested = any((a[0] in ('<', '<=') and (contains(a[1], old) or contains(a[2], old))) or
+                                         (a[0] in ('is', 'true') and isinstance(a[1], tuple) and contains(a[1], old)) for a in path_atoms(F2, bi))
+                            panicking = t['k'] == 'assert' or (t['k'] == 'call' and not t['f']['fn']['unsafe'])
+                            if not tested and panicking and unguarded_access is None:
+                                unguarded_access = (t.get('line', ''), show(tm)[:60], fld)
                     for fld, _ in fw:
                         old = ('field', SELF, fld)
                         ahead = [st for st in subterms(tm) if isinstance(st, tuple) and st[:2] == ('bin', 'Add') and old in (st[2], st[3])
@@ -163,6 +180,10 @@ def rule_IT(FA):
                         covered = any(a[0] in ('<', '<=') and contains(a[1], ahead[0]) for a in path_atoms(F2, bi))
                         if not covered:
                             bad = (t.get('line', ''), show(tm)[:80], fld)
+            if unguarded_access:
+                out.append(Inst('R-IT', 'R-IT|%s|%s|access before bound test' % (base, name), 'violation', unguarded_access[0],
+                                '%s() reads storage at `%s` before any test of the cursor `%s` against the bound: at the end of the sequence the access panics where the iterator must answer None' % (
+                                    name, unguarded_access[1], unguarded_access[2]), props))
             key = 'R-IT|%s|%s|read-ahead' % (base, name)
             if bad:
                 out.append(Inst('R-IT', key, 'violation', bad[0],
@@ -227,7 +248,7 @@ def _mentions_old_content(t):
 
 def rule_NON(FA):
     out = []
-    props = ['C08', 'C19', 'C10', 'C06', 'C04']
+    props = ['C08', 'C19', 'C10', 'C06', 'C04', 'C14']
     base = 'bitvector::BitVectorMut'
     n = 0
     for f in FA.lib_fns(include_closures=False):
@@ -321,6 +342,29 @@ def rule_NON(FA):
                                     sample={'count': show(cnt)}))
         if not found:
             out.append(Inst('R-NON', key, 'violation', ez['span'], 'no resize of the line vector found (anchor lost)', props))
+    # the length advances by more than one bit only together with a resize of the line vector (extend_with_zeros); a path that
+    # adds a chunk length to n_bits and allocates nothing leaves data.len() < ceil(n_bits / LINE_BITS)
+    for g in FA.lib_fns(include_closures=False):
+        if g.get('_base') != base or g['argc'] < 1 or not g['locals'][1].startswith('&mut'):
+            continue
+        G = FA.fn(g)
+        dom = G.dom()
+        for bi, fld, val, line, ty in _field_writes(G, 'n_bits'):
+            if not (val[:2] == ('bin', 'Add') and ('field', SELF, 'n_bits') in (val[2], val[3])):
+                continue
+            inc = val[3] if val[2] == ('field', SELF, 'n_bits') else val[2]
+            if inc[:1] == ('const',):
+                continue
+            alloc = [bj for bj, t in G.calls() if t['f']['fn']['name'] in ('resize', 'resize_with', 'push', 'extend', 'reserve') and
+                     any(isinstance(x, tuple) and x[:2] == ('field', SELF) and x[2] == 'data' for x in subterms(norm(G.operand_term(t['args'][0])))) if t['args']]
+            covered = bool(alloc)   # which path allocates is a numeric question (does the chunk cross a line?); none at all is the defect
+            key = 'R-NON|%s|length advance' % fn_key(g)
+            if covered:
+                out.append(Inst('R-NON', key, 'ok', line, 'n_bits advances by `%s` together with an allocation of lines' % show(inc)[:40], props))
+            else:
+                out.append(Inst('R-NON', key, 'violation', line,
+                                '%s adds `%s` to n_bits on a path that allocates no line: when the chunk crosses a %d-bit line the storage is one line short (later writes land in the previous line, reads panic)' % (
+                                    g['name'], show(inc)[:40], line_bits), props))
     # any other place that sizes a line vector from a bit count: floor(n / LINE_BITS) + 1 is one line too many when n is a multiple
     if line_bits:
         k9 = line_bits.bit_length() - 1
@@ -465,6 +509,8 @@ def rule_MSK(FA):
             shift = lt[3][1]
         if step is not None and shift is not None and step == (1 << shift):
             out.append(Inst('R-MSK', key, 'ok', push['span'], 'push advances position by %d, len() = position >> %d' % (step, shift), props))
+        elif step is None or shift is None:
+            out.append(Inst('R-MSK', key, 'note', push['span'], 'the step of the position counter in push (or the shift in len()) was not recognised: not decided', props, nontrivial=False))
         else:
             out.append(Inst('R-MSK', key, 'violation', push['span'], 'push advances position by %s but len() is %s' % (step, show(lt) if lt else '?'), props))
         # the in-line position handed to set_symbol is (position >> shift) & 255
@@ -761,7 +807,7 @@ def rule_DAR(FA):
                           branch, D, '; '.join(show(c)[:80] for c in cnt_terms), D), props,
                       sample={'count_terms': [show(c)[:120] for c in cnt_terms]}))
     if n_app < 2:
-        out.append(Inst('R-DAR', 'R-DAR|flush_block appends', 'violation', nws[0]['span'], 'expected an append to subblock_inventory in both branches, found %d' % n_app, props))
+        out.append(Inst('R-DAR', 'R-DAR|flush_block appends', 'note', nws[0]['span'], 'appends to subblock_inventory recognised: %d (the writer is built in a way the rule does not follow): per-branch counts not decided' % n_app, props, nontrivial=False))
     # every group writes one block_inventory entry AND its share of subblock_inventory entries: the reader indexes the
     # sub-block array with the global i / D, so a group (dense or sparse) that appends nothing shifts every later group
     lonely = [ln for bi, ca, ln in blk_sites if not any(ca <= cs for _, cs in sub_sites)]
@@ -977,6 +1023,20 @@ def rule_LVL(FA):
                         good = False
                     # ... and the counting pass visits every element of the input once: the iterator that drives it is the
                     # plain element iterator (no chunk_by / dedup / step_by / skip / take / filter / windows in between)
+                    # ... and are handed over as counted: no closure between the counting pass and the coder rescales / packs them
+                    for bj, t2 in F.calls():
+                        if t2['f']['fn']['name'].startswith('from_frequencies') and len(t2['args']) >= 2 and 'p' in t2['args'][1] and not freq_mut:
+                            tmf = norm(F.operand_term(t2['args'][1]))
+                            for x in subterms(tmf):
+                                if isinstance(x, tuple) and x[:1] == ('agg',) and isinstance(x[1], str) and x[1].startswith('closure:'):
+                                    cf = FA.fns.get(x[1][len('closure:'):])
+                                    if cf is None:
+                                        continue
+                                    ops = {s_['rv']['op'].replace('WithOverflow', '').replace('Unchecked', '') for b_ in cf['blocks'] for s_ in b_['s'] if s_['rv']['k'] == 'bin'}
+                                    incr_only = ops <= {'Add', 'Eq', 'Ne', 'Lt', 'Le', 'Gt', 'Ge'}
+                                    if not incr_only:
+                                        freq_mut = 'the counted frequencies pass through a closure that applies %s to them' % '/'.join(sorted(ops - {'Add', 'Eq', 'Ne', 'Lt', 'Le', 'Gt', 'Ge'}))
+                                        good = False
                     lossy = _counting_source(FA, F)
                     if lossy:
                         good = False
@@ -1084,8 +1144,11 @@ def _pure_conversion_closure(clo):
         if isinstance(x, tuple) and x:
             if x[0] in ('as_', 'cast'):
                 return ok(x[2])
-            if x[0] == 'call' and x[1].split('::')[-1] in ('into', 'from', 'clone', 'as_', 'deref', 'borrow', 'to_owned') and len(x[2]) == 1:
+            if x[0] == 'call' and x[1].split('::')[-1] in ('into', 'from', 'clone', 'as_', 'deref', 'borrow', 'to_owned', 'try_into', 'try_from') and len(x[2]) == 1:
                 return ok(x[2][0])
+            if x[0] == 'call' and x[1].split('::')[-1] in ('expect', 'unwrap') and x[2] and isinstance(x[2][0], tuple) and x[2][0][:1] == ('call',) \
+                    and x[2][0][1].split('::')[-1] in ('try_into', 'try_from'):
+                return ok(x[2][0])      # a checked conversion that panics on values the target cannot hold (documented)
         return False
     return ok(r)
 
@@ -1130,6 +1193,7 @@ DEL_PATHS = [
     ('bitvector::rs_wide::RSWide', 'From', 'from', ('new',), ['C06', 'C19']),
     ('darray::DArray', 'FromIterator', 'from_iter', ('new',), ['C07', 'C19']),
     ('qvector::QVector', 'FromIterator', 'from_iter', ('build',), ['C13', 'C19']),
+    ('bitvector::BitVector', 'FromIterator', 'from_iter', ('into', 'from', 'build'), ['C08', 'C19']),
 ]
 
 
@@ -1153,9 +1217,10 @@ def rule_DEL(FA):
             ok = ret[0] == 'call' and ret[1].split('::')[-1] in callees and all(_pure_plumbing(a, params) for a in ret[2]) \
                 and any(contains(a, params[0]) for a in ret[2])
             if not ok and 'build' in callees:
-                # builder shape: b = Builder::default(); b.extend(<whole input>); b.build()
+                # builder shape: b = Builder::default(); b.extend(<whole input>); b.build() / b.into()
                 ext = [t for bi, t in F.calls() if t['f']['fn']['name'] == 'extend']
-                others = [t for bi, t in F.calls() if t['f']['fn']['name'] in ('push', 'truncate', 'pop', 'clear', 'take', 'skip', 'filter', 'step_by')]
+                others = [t for bi, t in F.calls() if t['f']['fn']['name'] in ('push', 'truncate', 'pop', 'clear', 'take', 'skip', 'filter', 'step_by',
+                                                                                'extend_with_zeros', 'set', 'set_bits', 'append_bits', 'resize', 'insert')]
                 if len(ext) == 1 and not others:
                     a1 = norm(F.operand_term(ext[0]['args'][1]))
                     if _pure_plumbing(a1, params) and contains(a1, params[0]) and any(
@@ -1254,6 +1319,37 @@ def _spc_accounted(FA, f):
                 if fs and any(isinstance(e, dict) and ('idx' in e or 'cidx' in e) for e in rv['p']['proj']):
                     out.add(fs[0])
     return out
+
+
+def _spc_not_delegated(FA, fi, adt):
+    """(field, type) of a heap-bearing component that is a crate struct with its own SpaceUsage impl but is measured without
+    calling its space_usage_byte() (only len() / constants)"""
+    spc_types = {i_['self_adt'] for i_ in FA.impls if i_['trait'].endswith('SpaceUsage') and i_.get('self_adt')}
+    cands = {}
+    for x in adt['fields']:
+        if x['tags'] and x['tags'][0].startswith('adt:') and x['tags'][0][4:] in spc_types and x['tags'][0][4:] in FA.adts:
+            inner = FA.adts[x['tags'][0][4:]]
+            if any(_heap_bearing(FA, y) for y in inner['fields']):
+                cands[x['name']] = x['tags'][0][4:]
+    if not cands:
+        return None
+    delegated = set()
+    used = set()
+    for g in FA.with_closures(fi):
+        F = FA.fn(g)
+        for bi, t in F.calls():
+            if not t['args']:
+                continue
+            for a in t['args']:
+                tm = norm(F.operand_term(a))
+                for st in subterms(tm):
+                    if isinstance(st, tuple) and st[:2] == ('field', SELF) and st[2] in cands:
+                        used.add(st[2])
+                        if t['f']['fn']['name'] == 'space_usage_byte':
+                            delegated.add(st[2])
+    for fld in sorted(used - delegated):
+        return (fld, cands[fld])
+    return None
 
 
 def _spc_overwritten(FA, fi):
@@ -1382,6 +1478,12 @@ def rule_SPC(FA):
         acc = _spc_accounted(FA, fi)
         missing = [h for h in heap if (h not in got or h not in acc) and '*self' not in got and (base, h) not in SPC_EXCEPTIONS]
         key = 'R-SPC|%s' % base
+        nodeleg = _spc_not_delegated(FA, fi, adt)
+        if nodeleg and not missing:
+            out.append(Inst('R-SPC', key, 'violation', f['span'],
+                            'space_usage_byte() of %s does not ask its component `%s` (%s) for its own space_usage_byte(): a size derived from its length alone cannot follow the component\'s layout (block size, lines per block)' % (
+                                base.split('::')[-1], nodeleg[0], nodeleg[1].split('::')[-1]), props))
+            continue
         over = _spc_overwritten(FA, fi)
         if over:
             out.append(Inst('R-SPC', key, 'violation', over,
@@ -1426,6 +1528,8 @@ def rule_SPC(FA):
 def _float_const(t):
     t = norm(t)
     t = strip_casts(t)
+    if isinstance(t, tuple) and t[:1] == ('call',) and t[1].split('::')[-1] in ('from', 'into') and len(t[2]) == 1:
+        t = strip_casts(t[2][0])     # f64::from(1024u32)
     if t[0] == 'const':
         return float(t[1])
     if t[0] == 'cexpr':
